@@ -228,8 +228,11 @@ def structure_items(repo):
     src = ast.unparse(gd.node)
     assigns = [ast.unparse(n) for n in ast.walk(gd.node) if isinstance(n, ast.Assign)
                and any(isinstance(t, ast.Name) and t.id == "ln" for t in n.targets)]
-    ok = "for i in range(ln, self.nLines):" in src and assigns == ["ln = i"] \
-        and "return (ln, docstring, predocmark)" in src
+    # ln is only ever set to an index of range(ln, nLines) or, when the block runs to the end of the file, to nLines
+    # (the function returns early when ln >= nLines, so both are >= the argument)
+    ok = any(isinstance(n, ast.For) and ast.unparse(n.iter) == "range(ln, self.nLines)" for n in ast.walk(gd.node)) \
+        and set(assigns) <= {"ln = i", "ln = self.nLines"} and "ln = i" in assigns \
+        and "if ln >= self.nLines:\n        return (ln, docstring, predocmark)" in src and "return (ln, docstring, predocmark)" in src
     items.append(term.item("C03/FortranFile.get_docstring/ensures.monotone", ok,
                            "the returned line number is the argument or an index of range(ln, nLines)", gd.where(), func=gd.qualname))
     pd = repo.func(f"{PARSER}.FortranFile.parse_docs")
